@@ -175,6 +175,9 @@ def _gen(case):
     elif rng.random() < 0.5:
         size = str(rng.choice(['small', 'medium']))
     params, ext = G.gen_shape(rng, kind, size)
+    halfint = False
+    if rng.random() < 0.15:
+        params, halfint = G.snap_half(rng, kind, params), True      # axis (ix)
     npos = int(rng.integers(2, 5)) if cls == 'multi' else (int(rng.integers(1, 4)) if rng.random() < 0.4 else 1)
     locs = _locs(rng, cls, npos)
     positions = [G.gen_position(rng, loc, shape, ext) for loc in locs]
@@ -206,6 +209,18 @@ def _gen(case):
         data = data * mag
     if error is not None and emag != 1.0:
         error = error * emag
+    # axis (vii): dtype kind of image and error map, independently (plain magnitude only)
+    ddt = edt = 'float64'
+    if data.dtype == np.float64 and mag == 1.0 and rng.random() < 0.3:
+        data, ddt = G.to_dtype(rng, data, 'data')
+    if error is not None and emag == 1.0 and rng.random() < 0.25:
+        error, edt = G.to_dtype(rng, error, 'error')
+    # axis (xi): caller-owned all-False / all-True masks in any class
+    r = rng.random()
+    maskkind = 'none' if mask is None else 'generated'
+    if cls not in ('masked', 'allmasked') and r < 0.09:
+        mask = np.zeros(shape, bool) if r < 0.06 else np.ones(shape, bool)
+        maskkind = 'all_false' if r < 0.06 else 'all_true'
     lb = None
     lbform = 'none'
     if cls == 'localbkg' or rng.random() < 0.35:
@@ -240,7 +255,7 @@ def _gen(case):
     return dict(shape=shape, style=style, data=data, error=error, mask=mask, kind=kind, params=params, ext=ext,
                 positions=positions, locs=locs, scalar=scalar, sum_method=sum_method, subpixels=subpixels,
                 clip=clip, lb=lb, unit=unit, SigmaClip=SigmaClip, mag=mag, maglab=maglab, emag=emag, emaglab=emaglab,
-                lbform=lbform, layout={k: str(rng.choice(G.LAYOUTS)) for k in ('data', 'error', 'mask')})
+                lbform=lbform, ddt=ddt, edt=edt, maskkind=maskkind, halfint=halfint, layout={k: str(rng.choice(G.LAYOUTS)) for k in ('data', 'error', 'mask')})
 
 
 # ----------------------------------------------------------------------
@@ -423,6 +438,16 @@ def _run_case(case):
     if abs(g['shape'][0] - g['shape'][1]) >= 2:
         case.note('shape:nonsquare')
     case.note('form_local_bkg:' + g['lbform'])
+    case.note('axis2_dtype_data:' + (g['ddt'] if g['ddt'] != 'float64' else str(data.dtype)))
+    if error is not None:
+        case.note('axis2_dtype_error:' + (g['edt'] if g['edt'] != 'float64' else str(error.dtype)))
+    case.note('axis2_mask:' + g['maskkind'])
+    for loc in g['locs']:
+        case.note('axis2_position:' + loc)
+    if g['halfint']:
+        case.note('axis2_half_integer_sizes')
+    if abs(g['shape'][0] - g['shape'][1]) >= 2:
+        case.note('axis2_shape:wide' if g['shape'][1] > g['shape'][0] else 'axis2_shape:tall')
     labels, posform, pos_arg, ctor = {}, 'as_is', positions, params
     if cls != 'sky' and rng.random() < 0.5:
         ctor, canon, labels = G.apply_forms(rng, kind, params)
@@ -440,6 +465,12 @@ def _run_case(case):
                    given=params['theta'])
         params = dict(params, theta=held)
     g['params'] = params
+    hist = 'fresh'
+    if cls != 'sky' and rng.random() < 0.4:
+        ap, hist = G.with_history(rng, ap, data)          # axis (x): copy / indexed / used before
+    case.note('axis2_aperture_history:' + hist)
+    base['history'] = hist
+    case.params.update(history=hist, dtypes=[g['ddt'], g['edt']], maskkind=g['maskkind'])
     case.params.update(params={k: round(float(v), 6) for k, v in params.items()}, forms=labels, posform=posform)
     wcs = sky = None
     form = 'array'
@@ -453,6 +484,7 @@ def _run_case(case):
                           rng=rng if rng.random() < 0.6 else None, labels=slabels)
         for k, lab in slabels.items():
             case.note(('form_sky_theta:' if k == 'theta' else 'form_sky_length:') + lab)
+        snap_sky = G.ap_snapshot(sky)
         ap = sky.to_pixel(wcs)
         form = 'sky'
     elif cls == 'nddata':
@@ -470,7 +502,9 @@ def _run_case(case):
     case.note('positions_no_unmasked_pixel', sum(o['overlap'] and len(o['v']) == 0 for o in ora))
     case.note('pixels_clipped', sum(o['nclipped'] for o in ora))
 
-    st = _make_stats(g, sky if sky is not None else ap, data, error, mask, wcs=wcs, form=form)
+    the_ap = sky if sky is not None else ap
+    snap0 = snap_sky if sky is not None else G.ap_snapshot(ap)
+    st = _make_stats(g, the_ap, data, error, mask, wcs=wcs, form=form)
     case.check(bool(st.isscalar) == bool(g['scalar']), 'isscalar', base)
     case.check(int(st.n_apertures) == npos, 'n_apertures', base)
 
@@ -504,6 +538,19 @@ def _run_case(case):
     if not ok_cov:
         case.note('relations_skipped_covariance_unavailable')
         return
+    # axis (x): the same aperture object used for a second ApertureStats; its parameters are untouched
+    if sky is not None or rng.random() < 0.3:
+        st2 = _make_stats(g, the_ap, data, error, mask, wcs=wcs, form=form)
+        case.note('axis2_second_use')
+        for name in REL_PROPS:
+            v2, _ = _get(st2, name)
+            case.close(v2, obs[name][0], 'second_use_equals_first_use', mech=dict(base, prop=name, form=form))
+    case.check(G.ap_snapshot(the_ap) == snap0, 'aperture_parameters_unchanged_by_use', dict(base, form=form),
+               before=repr(snap0)[:300], after=repr(G.ap_snapshot(the_ap))[:300])
+    # caller-owned inputs as the object holds them (an all-False mask stays all False ...)
+    case.check(core.exact(np.asarray(st._data), data) and (error is None or core.exact(np.asarray(st._error), error))
+               and (mask is None or np.array_equal(np.asarray(st._mask), mask)), 'inputs_unchanged_by_use',
+               dict(base, mask=g['maskkind']))
     _rel_table(case, st, obs, base)
     if npos > 1 or (not g['scalar'] and rng.random() < 0.3):
         _rel_singles(case, rng, g, ap, data, error, mask, wcs, lbk, obs, base)
@@ -808,7 +855,9 @@ def _rel_photometry(case, ap, data, error, mask, ora, obs, g, lbk, base):
     mm = bad if mask is None else (bad | mask)
     d = np.where(bad, 0.0, d)
     kw = dict(method=g['sum_method'], subpixels=g['subpixels'])
-    tbl = aperture_photometry(d.copy(), ap, error=None if error is None else error.copy(), mask=mm.copy(), **kw)
+    # (error handed over as float64: do_photometry squares float16/float32 maps in their own dtype - a C02 finding)
+    tbl = aperture_photometry(d.copy(), ap, error=None if error is None else np.asarray(error).astype(float),
+                              mask=mm.copy(), **kw)
     area = np.atleast_1d(ap.area_overlap(d.copy(), mask=mm.copy(), **kw))
     psum = np.atleast_1d(np.asarray(tbl['aperture_sum'], float))
     for k, o in enumerate(ora):
